@@ -15,11 +15,11 @@ import (
 	"github.com/ipfs/go-graphsync/dedupkey"
 	"github.com/ipfs/go-graphsync/donotsendfirstblocks"
 	gsmsg "github.com/ipfs/go-graphsync/message"
-	p2pnet "github.com/libp2p/go-libp2p/core/network"
 	"github.com/ipld/go-ipld-prime/datamodel"
 	"github.com/ipld/go-ipld-prime/fluent/qp"
 	cidlink "github.com/ipld/go-ipld-prime/linking/cid"
 	"github.com/ipld/go-ipld-prime/node/basicnode"
+	p2pnet "github.com/libp2p/go-libp2p/core/network"
 	"github.com/libp2p/go-libp2p/core/peer"
 	"github.com/libp2p/go-msgio"
 	mh "github.com/multiformats/go-multihash"
@@ -115,7 +115,9 @@ func c11ExtData() []c11Ext {
 		{"list-empty", mk(qp.List(0, func(la datamodel.ListAssembler) {}))},
 		{"map-empty", mk(qp.Map(0, func(ma datamodel.MapAssembler) {}))},
 		{"map-nested", mk(qp.Map(2, func(ma datamodel.MapAssembler) {
-			qp.MapEntry(ma, "a", qp.Map(1, func(ma2 datamodel.MapAssembler) { qp.MapEntry(ma2, "b", qp.List(1, func(la datamodel.ListAssembler) { qp.ListEntry(la, qp.Link(link)) })) }))
+			qp.MapEntry(ma, "a", qp.Map(1, func(ma2 datamodel.MapAssembler) {
+				qp.MapEntry(ma2, "b", qp.List(1, func(la datamodel.ListAssembler) { qp.ListEntry(la, qp.Link(link)) }))
+			}))
 			qp.MapEntry(ma, "z", qp.Null())
 		}))},
 	}
@@ -721,4 +723,3 @@ func init() {
 			return res
 		}})
 }
-
